@@ -103,7 +103,7 @@ CHECKS["C27"] = {
 
 CHECKS["C10"] = {
     "technique": "exhaustive constructive-reference testing: piece sequences x hyphen flags",
-    "text": "Sources are assembled from 141 piece variants (texts with every ASCII whitespace character and markup-like fragments; output, echo, raw, comment, doc, inline comment, liquid and {# #} pieces with every left/right hyphen combination on outer and inner delimiters); the expected output is constructed piece by piece (text verbatim, raw body verbatim, comments nothing, a hyphen strips only the adjacent text). All sequences up to 3 pieces are enumerated in the thorough tier (2M sources), up to 2 plus a 1/60 slice of length 3 in quick, plus random longer sequences.",
+    "text": "Sources are assembled from 141 piece variants (texts with every ASCII whitespace character, non-ASCII whitespace (NBSP, NEL, U+2003, U+2028, U+3000, U+001C) and markup-like fragments; output, echo, raw, comment, doc, inline comment, liquid and {# #} pieces with every left/right hyphen combination on outer and inner delimiters); the expected output is constructed piece by piece (text verbatim, raw body verbatim, comments nothing, a hyphen strips only the adjacent text). All sequences up to 3 pieces are enumerated in the thorough tier (2M sources), up to 2 plus a 1/60 slice of length 3 in quick, plus random longer sequences.",
     "design_ref": "DESIGN.md §4 C10",
     "note": "Default delimiters and the template_comments environment only (custom delimiters are C11). Hyphens on inner raw/comment/doc delimiters are expected to have no effect.",
 }
